@@ -71,6 +71,7 @@ class DataGen:
         self.rs, self.r = rs, rng
         self.etypes = sorted(rs["etypes"])
         self.std_types = [n for n in self.etypes if rs["etypes"][n]["enum"] is None]
+        self.full = False      # full mode: every optional attribute present, every set non-empty (all nested sites exist)
 
     # ---- values
     def uid_of(self, ty, fresh=None):
@@ -93,7 +94,7 @@ class DataGen:
         if k == "ext":
             return ("ext", r.choice(EXT_VALUES[t[1]]))
         if k == "set":
-            return ("set", [self.value(t[1]) for _ in range(r.choice([0, 1, 2, 2]))])
+            return ("set", [self.value(t[1]) for _ in range(r.choice([1, 2] if self.full else [0, 1, 2, 2]))])
         if k == "record":
             return ("record", self.record_fields(t[1]))
         raise ValueError(t)
@@ -101,7 +102,7 @@ class DataGen:
     def record_fields(self, attrs):
         out = []
         for a, t, req in attrs:
-            if req or self.r.random() < 0.6:
+            if req or self.full or self.r.random() < 0.6:
                 out.append((a, self.value(t)))
         return out
 
@@ -300,9 +301,13 @@ def entity_cases(sid, dg):
     r = dg.r
     rs = dg.rs
     cases = []
-    for ty in dg.etypes:
+    for ty, full in [(t, f) for t in dg.etypes for f in (False, True)]:
         i = rs["etypes"][ty]
+        if full and (rs["etypes"][ty]["enum"] is not None or not i["attrs"]):
+            continue
+        dg.full = full
         e = dg.entity(ty)
+        dg.full = False
         # companions: conformant entities (possibly parents of e) so that TC really runs
         comp = []
         for p in e["parents"][:1]:
@@ -733,6 +738,8 @@ HAND_SCHEMA = {"NS": {
                      "addr": {"type": "Addr", "required": False},
                      "friends": {"type": "Set", "element": {"type": "Entity", "name": "User"}, "required": False},
                      "colors": {"type": "Set", "element": {"type": "Record", "attributes": {"c": {"type": "Entity", "name": "Color"}}}, "required": False},
+                     "grid": {"type": "Set", "element": {"type": "Set", "element": {"type": "Entity", "name": "Color"}}, "required": False},
+                     "frame": {"type": "Record", "attributes": {"inner": {"type": "Record", "attributes": {"c": {"type": "Entity", "name": "Color"}}}}, "required": False},
                      "ip": {"type": "Extension", "name": "ipaddr", "required": False}}},
                  "tags": {"type": "Set", "element": {"type": "String"}}},
         "Group": {"memberOfTypes": ["Org", "Color"]},
